@@ -790,6 +790,26 @@ def monitor_impl(im):
                         % (d, ",".join(str(x) for x in sorted(before) if x < 64))), False
         if set(before) != set(after) or any(before[d][0] != after[d][0] for d in before):
             return "uv_disable_stdio_inheritance() opened, closed or redirected a descriptor", False
+    ksteps = [t for t in steps if t[0] in "KPN" and ":" in t]
+    if len(ksteps) != len(im.killlog):
+        return "%d uv_kill/uv_process_kill calls made, %d returned" % (len(ksteps), len(im.killlog)), False
+    for t, (call, h, ret, reaped, grand) in zip(ksteps, im.killlog):
+        sg = int(t.split(":")[1])
+        detached = "d" in im.script[h]["flags"]
+        what = {"K": "uv_process_kill(child %d, %d)", "P": "uv_kill(pid of child %d, %d)",
+                "N": "uv_kill(-pid of child %d = its process group, %d)"}[t[0]] % (h, sg)
+        if t[0] == "N":
+            has_gc = im.script[h]["act"][0] == "F"
+            gc_gone = grand.get(h, "alive") not in ("alive",) if has_gc else True
+            exists = detached and (h not in reaped or not gc_gone)
+        else:
+            exists = h not in reaped
+        want = -22 if not (0 <= sg <= 64) else (0 if exists else -3)
+        if ret != want:
+            return ("%s returned %d, expected %d (%s)%s" %
+                    (what, ret, want, "invalid signal number" if want == -22 else
+                     ("the target exists" if exists else "no such process"),
+                     "; kill(2) was never called: nothing was signalled" if call is None else "")), False
     for h, sp in sorted(im.spawns.items()):
         sc = im.script[h]
         fl, stdio = sc["flags"], sc["stdio"]
@@ -907,33 +927,13 @@ def monitor_impl(im):
                     return "child %d: handle still active in exit_cb" % h, False
             if h in (im.z or []) and not (h in closed_at and h not in reaped_by_uv):
                 return "child %d was left unreaped" % h, False
-    ksteps = [t for t in steps if t[0] in "KPN" and ":" in t]
-    if len(ksteps) != len(im.killlog):
-        return "%d uv_kill/uv_process_kill calls made, %d returned" % (len(ksteps), len(im.killlog)), False
-    for t, (call, h, ret, reaped, grand) in zip(ksteps, im.killlog):
-        sg = int(t.split(":")[1])
-        detached = "d" in im.script[h]["flags"]
-        what = {"K": "uv_process_kill(child %d, %d)", "P": "uv_kill(pid of child %d, %d)",
-                "N": "uv_kill(-pid of child %d = its process group, %d)"}[t[0]] % (h, sg)
-        if t[0] == "N":
-            has_gc = im.script[h]["act"][0] == "F"
-            gc_gone = grand.get(h, "alive") not in ("alive",) if has_gc else True
-            exists = detached and (h not in reaped or not gc_gone)
-        else:
-            exists = h not in reaped
-        want = -22 if not (0 <= sg <= 64) else (0 if exists else -3)
-        if ret != want:
-            return ("%s returned %d, expected %d (%s)%s" %
-                    (what, ret, want, "invalid signal number" if want == -22 else
-                     ("the target exists" if exists else "no such process"),
-                     "; kill(2) was never called: nothing was signalled" if call is None else "")), False
-    for h, v, _ in im.joins:
+    for h, v, nk in im.joins:
         sig = killed.get(h)
         if v == "none":
             return "the helper of child %d did not report a grandchild" % h, False
         if sig is not None and "d" in im.script[h]["flags"]:
             # the whole group of the detached child was signalled: the grandchild too
-            prior = [t for t in ksteps if t[0] == "N" and t[1:].split(":")[0] == str(h)]
+            prior = [t for t in ksteps[:nk] if t[0] == "N" and t[1:].split(":")[0] == str(h)]
             if any(int(t.split(":")[1]) == sig for t in prior):
                 if v in ("alive", "gone") or (int(v) & 0x7f) != sig:
                     return ("grandchild in the process group of detached child %d: %s after uv_kill(-pgid, %d)"
